@@ -104,46 +104,42 @@ func (ix *idxEngine) table() []tableEntry {
 				return o.Kind == "PANIC" && o.Fn.Name() == "invokePropertyCallbacks"
 			},
 			Premise: func(ix *idxEngine, o *idxOb) (bool, string) {
-				// the panic block is reached only when parameter t differs from every handled constant;
-				// every call site passes one of those constants
-				handled := map[int64]bool{}
-				var par *ssa.Parameter
-				for _, cf := range dominatingConds(o.In.Block()) {
-					b, ok := cf.Cond.(*ssa.BinOp)
-					if !ok || b.Op != token.EQL || cf.Val {
-						continue
-					}
-					if p, ok := b.X.(*ssa.Parameter); ok {
-						if k, ok := constInt(b.Y); ok {
-							handled[k] = true
-							par = p
-						}
-					}
-				}
-				if par == nil || len(handled) == 0 {
-					return false, "panic block is not the default of a switch on a parameter"
-				}
-				idx := -1
-				for i, p := range o.Fn.Params {
-					if p == par {
-						idx = i
-					}
-				}
+				// every value of an integer parameter that decides whether the panic is reached is a constant at
+				// every call site (following parameters that merely forward it, depth <= 3), and executing the
+				// function symbolically with each of those constants never reaches the panic
 				if o.Fn.Object() != nil && o.Fn.Object().Exported() {
 					return false, "function is exported: callers are not enumerable"
 				}
-				sites := ix.callSitesOf(o.Fn)
-				if len(sites) == 0 {
-					return false, "no call sites"
-				}
-				for _, s := range sites {
-					a := s.Call.Common().Args[idx]
-					k, ok := constInt(a)
-					if !ok || !handled[k] {
-						return false, "call in " + FuncName(s.Fn) + " passes " + a.String()
+				tried := 0
+				for idx, par := range o.Fn.Params {
+					if !isIntType(par.Type()) {
+						continue
+					}
+					ks, all := ix.constActuals(o.Fn, idx, 0)
+					if !all || len(ks) == 0 {
+						continue
+					}
+					tried++
+					reached := false
+					for k := range ks {
+						for _, sp := range symExec(o.Fn, map[ssa.Value]absVal{par: {kind: "int", k: k}}, func(in ssa.Instruction) bool { _, isP := in.(*ssa.Panic); return isP }) {
+							if sp.panicked {
+								for _, t := range sp.trace {
+									if t == o.In {
+										reached = true
+									}
+								}
+							}
+						}
+					}
+					if !reached {
+						return true, fmt.Sprintf("parameter %s only ever receives the constants %v (call sites enumerated through forwarding helpers); none of them reaches the panic", par.Name(), sortedKeys(ks))
 					}
 				}
-				return true, fmt.Sprintf("all %d call sites pass one of the %d handled constants", len(sites), len(handled))
+				if tried == 0 {
+					return false, "no integer parameter receives only constants at every call site"
+				}
+				return false, "a constant passed at some call site reaches the panic"
 			},
 			Reason: "unreachable: internal function, every caller passes a handled constant",
 		},
@@ -475,3 +471,63 @@ func (ix *idxEngine) applyTable() {
 }
 
 var _ = constant.MakeInt64
+
+// constActuals: the constants passed for parameter idx of fn at every module call site, following callers
+// that forward one of their own parameters; all=false if some call site passes anything else.
+func (ix *idxEngine) constActuals(fn *ssa.Function, idx int, depth int) (map[int64]bool, bool) {
+	out := map[int64]bool{}
+	if depth > 3 {
+		return out, false
+	}
+	if fn.Object() != nil && fn.Object().Exported() && ix.isEntry(fn) {
+		return out, false
+	}
+	sites := ix.callSitesOf(fn)
+	if len(sites) == 0 {
+		return out, false
+	}
+	for _, s := range sites {
+		args := s.Call.Common().Args
+		if idx >= len(args) {
+			return out, false
+		}
+		a := args[idx]
+		if k, ok := constInt(a); ok {
+			out[k] = true
+			continue
+		}
+		if par, ok := a.(*ssa.Parameter); ok {
+			pi := -1
+			for i, q := range s.Fn.Params {
+				if q == par {
+					pi = i
+				}
+			}
+			if pi >= 0 {
+				ks, all := ix.constActuals(s.Fn, pi, depth+1)
+				if !all {
+					return out, false
+				}
+				for k := range ks {
+					out[k] = true
+				}
+				continue
+			}
+		}
+		return out, false
+	}
+	return out, true
+}
+
+func sortedKeys(m map[int64]bool) []int64 {
+	var out []int64
+	for k := range m {
+		out = append(out, k)
+	}
+	for i := 1; i < len(out); i++ {
+		for j := i; j > 0 && out[j] < out[j-1]; j-- {
+			out[j], out[j-1] = out[j-1], out[j]
+		}
+	}
+	return out
+}
